@@ -357,7 +357,8 @@ def gen_build(rng, sc, lr_fail_bias=False):
     if rng.random() < 0.08:
         opts["debug_colors"] = True  # sets the module-global termui.colors
     b = {"kind": kind, "opts": opts}
-    b["recovery"] = rng.choice(["off", "off", "default", "default", "skip", "inject", "mixed"])
+    b["recovery"] = rng.choice(["off", "off", "default", "default", "skip", "inject", "mixed",
+                                "pureskip"])
     if sc.get("dynamic"):
         b["filter"] = rng.choice(["prec", "prec", "accept", "none"])
     else:
